@@ -270,6 +270,8 @@ def run(ctx):
 			ids = None
 			if chan == 'sigs':
 				ids = [rng.choice(['s', "it's", 'a b', 'x(1)', 'semi;colon', 'com,ma', 'q"uote', 'ü', 'colon:x']) + f'_{i}' for i in range(len(g))]
+				if rng.random() < 0.2:
+					ids = rng.sample(range(10 ** 6), len(g))       # integer IDs (valid in a signature file): the labels are their decimal text
 			sub({'kind': 'tree', 'g': g, 'chan': chan, 'ids': ids, 'explicit': rng.random() < 0.7, 'cores': rng.choice([None, 1, 3]), 'links': rng.random() < 0.3}, 'tree')
 	finally:
 		if _w is not None:
